@@ -204,6 +204,23 @@ CLAIMED = {
         "get_state_index / set_state (tied by sampled correspondence: 300 systems quick, 5000 thorough); environment indices are "
         "generated valid (invalid ones belong to C20); binary64 compared at relative 1e-9; the Python harness.",
         "DESIGN.md section 6 / C13"),
+    "C14": (
+        "Coq proof that the redistribution returns (after exactly |surplus| draws, whatever the uniforms) non-negative integers with the floored total and nothing where the real amount is zero, that the Poisson stage is position-wise / non-negative / zero-preserving, that 'none' is the identity + exact replay of the processing from the seed",
+        "Theorems (Props/C14.v, closed under the global context; any number of cells, any real-valued non-negative amounts incl. totals below "
+        "one molecule, any list of uniforms in [0,1)): the per-species correction returns - it performs exactly |drawn total - floor(total)| "
+        "draws, each of which succeeds - with non-negative integer counts whose sum is the floor of the real-valued total and with zero in "
+        "every cell whose real-valued amount is zero; the Poisson stage yields one non-negative count per entry at the same position, an "
+        "empty entry stays empty and consumes no random number; entry (cell, species) of the transposed input is entry (species, cell) of "
+        "the given state, so each draw uses the amount of that very entry; mode none passes the state through. Tied to the code on every "
+        "run: sample 0 of trajectories for four init_state_processing values x three engines x grid/graph on random real-valued states "
+        "(sub-molecule, fractional, integral, around the thresholds 12 and 100, above 100, empty cells, seeds 0 / 1 / 2^31-1): replayed "
+        "EXACTLY from the seed in Coq where all amounts are below 12 (mt19937, generate_canonical, small-mean Poisson, correction loop), "
+        "checked against the stated invariants otherwise; two set-ups with the same seed must agree.",
+        "Trusted: Coq kernel + VM; the hand-written model of GenerateStochasticDistribution / PoissonSample / the mode dispatch tied by "
+        "replay (about 3/4 of 400 cases quick, 10000 thorough) and by invariants for amounts >= 12 (libstdc++'s large-mean Poisson and "
+        "normal_distribution are not modelled); that the draws are Poisson-distributed is the library's contract; the exp enclosure "
+        "evaluator (see C07).",
+        "DESIGN.md section 6 / C14"),
     "C15": (
         "Coq proof over Z (index/coordinate bijection, per-axis neighbour multiplicities lifted to 3-D, engine neighbour involution) + exhaustive small-grid correspondence",
         "Theorems (Props/C15.v, closed under the global context, every w,h,d >= 1 and all 8 boundary mixes): index = z*w*h+y*w+x "
